@@ -267,10 +267,9 @@ func (ka *ecdheKeyAgreementGM) generateClientKeyExchange(config *Config, clientH
 		serialized = ourPublic[:]
 		preMasterSecret = sharedKey[:]
 	} else {
-		curve, ok := curveForCurveID(ka.curveid)
-		if !ok {
-			panic("internal error")
-		}
+		// The point in ka.x, ka.y was validated on the SM2 curve by
+		// processServerKeyExchange, whatever curve identifier the server named.
+		curve := sm2.P256Sm2()
 		priv, mx, my, err := elliptic.GenerateKey(curve, config.rand())
 		if err != nil {
 			return nil, nil, err
